@@ -13,7 +13,9 @@ PROP = "C20"
 MONTHS = ["January", "February", "March", "April", "May", "June", "July", "August", "September", "October", "November", "December"]
 
 DESC_WORDS = ["VANGUARD", "ISHARES", "CORE", "S&P", "500", "INDEX", "ETF", "GIC", "HOME", "TRUST", "BANK", "OF", "NOVA", "SCOTIA", "1Y", "2Y", "5Y", "CPD", "DUE",
-              "INT", "CDN", "UNITS", "CL", "A", "CAD-HEDGED", "FTSE", "ALL-WORLD", "EX", "U.S.", "HORIZONS", "US", "DLR", "BMO", "3.5", "60/40", "2030", "7"]
+              "INT", "CDN", "UNITS", "CL", "A", "CAD-HEDGED", "FTSE", "ALL-WORLD", "EX", "U.S.", "HORIZONS", "US", "DLR", "BMO", "3.5", "60/40", "2030", "7",
+              # words that also occur in the table's own header and footer lines
+              "ALLOCATION", "ASSET", "BALANCED", "PORTFOLIO", "MARKET", "VALUE", "TOTAL", "SECURITIES", "COMBINED", "TACTICAL", "FUND"]
 
 
 def comma_num(rng, lo, hi, dp=1):
